@@ -700,6 +700,8 @@ struct Req {
     grow: bool,
     /// requested zeroed (calloc)
     zeroed: bool,
+    /// > 0: reallocated down to this size right after the allocation and kept at that size
+    shrink_to: usize,
 }
 
 struct Round {
@@ -736,7 +738,7 @@ fn gen_round(dec: &mut Dec, big_holes: bool) -> Round {
                 size = 1 + size % 9000;
             }
         }
-        reqs.push(Req { size, align: if profile == 7 { 1usize << dec.choose(K::Arg, 5) } else { gen_align(dec) }, grow: !big_holes && dec.chance(K::Arg, 1, 5), zeroed: size <= (2 << 20) && dec.chance(K::Arg, 1, 4) });
+        reqs.push(Req { size, align: if profile == 7 { 1usize << dec.choose(K::Arg, 5) } else { gen_align(dec) }, grow: !big_holes && dec.chance(K::Arg, 1, 5), zeroed: size <= (2 << 20) && dec.chance(K::Arg, 1, 4), shrink_to: 0 });
     }
     let mut free_order: Vec<usize> = (0..n).collect();
     match dec.choose(K::Cfg, 4) {
@@ -774,7 +776,7 @@ fn gen_round(dec: &mut Dec, big_holes: bool) -> Round {
         let first = if dec.chance(K::Arg, 2, 3) { 8 + 8 * dec.choose(K::Arg, 28) as usize } else { 256 + 16 * dec.choose(K::Arg, 4096) as usize };
         let second = chunk(hole) - chunk(first) - 8;
         let warm = if dec.chance(K::Arg, 1, 2) { hole + (hole >> 1) + 4096 * dec.choose(K::Arg, 64) as usize } else { 0 };
-        let r = |size| Req { size, align: 8, grow: false, zeroed: false };
+        let r = |size| Req { size, align: 8, grow: false, zeroed: false, shrink_to: 0 };
         // fences and the hole are long-lived: allocated once, the hole given back at once; every
         // round then takes the two requests out of the hole and gives them back (either order)
         let reqs = vec![r(first), r(second)];
@@ -785,7 +787,7 @@ fn gen_round(dec: &mut Dec, big_holes: bool) -> Round {
         // the plain form of the family: two huge blocks kept apart by a small one, both freed,
         // then 1..4 huge blocks that fit the holes
         let huge = |dec: &mut Dec| ((6 + dec.choose(K::Arg, 36) as usize) << 20) + 4096 * dec.choose(K::Arg, 512) as usize;
-        let r = |size| Req { size, align: 8, grow: false, zeroed: false };
+        let r = |size| Req { size, align: 8, grow: false, zeroed: false, shrink_to: 0 };
         let mut reqs = vec![r(huge(dec)), r(16 + dec.choose(K::Arg, 2000) as usize), r(huge(dec))];
         let z = huge(dec);
         for _ in 0..1 + dec.choose(K::Arg, 4) {
@@ -795,6 +797,20 @@ fn gen_round(dec: &mut Dec, big_holes: bool) -> Round {
         return Round { pins: vec![(0, 64)], pin_freed_at_once: None, warm: 0, early_frees: vec![(2, 0), (2, 2)], reqs, free_order: (0..n).collect() };
     }
     Round { pins, pin_freed_at_once: None, warm: 0, early_frees, reqs, free_order }
+}
+
+/// A round of big blocks that are each reallocated down to a small size at once and kept until the
+/// end of the round.  Each request is a little smaller than the one before, so that it fits into the
+/// space the previous shrink gave back: the mapped total stays near one big block plus the small
+/// ones, unless a shrink keeps the space it no longer needs.
+fn gen_shrink_round(dec: &mut Dec) -> Round {
+    let n = 16 + dec.choose(K::Op, 33) as usize;
+    let big = ((1 + dec.choose(K::Arg, 4) as usize) << 20) + 4096 * dec.choose(K::Arg, 64) as usize;
+    let shrink_to = *dec.pick(K::Arg, &[16usize, 64, 1000, 4096]);
+    let align = *dec.pick(K::Arg, &[8usize, 16, 32, 64, 64, 256, 4096]);
+    let step = ((shrink_to + 15) & !15) + 64 + if align > 16 { 2 * align } else { 0 };
+    let reqs: Vec<Req> = (0..n).map(|i| Req { size: big - i * step, align, grow: false, zeroed: false, shrink_to }).collect();
+    Round { pins: vec![(0, 64)], pin_freed_at_once: None, warm: 0, early_frees: Vec::new(), reqs, free_order: if dec.chance(K::Arg, 1, 2) { (0..n).collect() } else { (0..n).rev().collect() } }
 }
 
 /// The growth oracle over the per-window maxima of the mapped byte total.
@@ -830,10 +846,14 @@ pub(crate) fn growth_violation(windows: &[usize], m_end: usize, peak_live: usize
 fn run_footprint_single(dec: Dec, opts: &RunOpts, rounds: usize, big_holes: bool) -> RunOut {
     let mut sim = Sim::new(dec, SimCfg { record: opts.record, ..SimCfg::default() });
     let mut round = gen_round(&mut sim.dec, big_holes);
+    let shrink_family = !big_holes && sim.dec.chance(K::Cfg, 1, 6);
+    if shrink_family {
+        round = gen_shrink_round(&mut sim.dec);
+    }
     if std::env::var_os("VERIF_C04_DEMO").is_some() {
         // debugging aid, never part of a registered command: one fixed big-holes round
         let mib = 1usize << 20;
-        let r = |size| Req { size, align: 8, grow: false, zeroed: false };
+        let r = |size| Req { size, align: 8, grow: false, zeroed: false, shrink_to: 0 };
         round = Round {
             pins: vec![(0, 64)],
             pin_freed_at_once: None,
@@ -846,7 +866,7 @@ fn run_footprint_single(dec: Dec, opts: &RunOpts, rounds: usize, big_holes: bool
     // a quarter of the runs with refusals: sparse mmap refusals, or the release calls (mremap shrink of a
     // trim, munmap of a free segment) failing now and then or always: what could not be given back
     // must stay usable, the footprint must still not keep growing
-    let faults = if !big_holes && sim.dec.chance(K::Cfg, 1, 4) {
+    let faults = if !big_holes && !shrink_family && sim.dec.chance(K::Cfg, 1, 4) {
         match sim.dec.choose(K::Cfg, 4) {
             0 | 1 => FaultCfg { mmap_p: 1, ..FaultCfg::default() },
             2 => FaultCfg { mremap_p: 4, munmap_p: 4, ..FaultCfg::default() },
@@ -855,7 +875,7 @@ fn run_footprint_single(dec: Dec, opts: &RunOpts, rounds: usize, big_holes: bool
     } else {
         FaultCfg::default()
     };
-    let churn = !big_holes && sim.dec.chance(K::Cfg, 1, 4);
+    let churn = !big_holes && !shrink_family && sim.dec.chance(K::Cfg, 1, 4);
     // placement policy of the run: per call by decision, or consistently adjacent (Linux's
     // top-down layout puts each new mapping directly below the previous one)
     let mut policy = if big_holes { *sim.dec.pick(K::Cfg, &[0u8, 1, 1, 1, 2]) } else { *sim.dec.pick(K::Cfg, &[0u8, 0, 0, 1, 2]) };
@@ -937,6 +957,18 @@ fn run_footprint_single(dec: Dec, opts: &RunOpts, rounds: usize, big_holes: bool
                         live += q.size;
                         unsafe { *(p as *mut u8) = 1 };
                     }
+                    let mut p = p;
+                    if q.shrink_to > 0 && p != 0 {
+                        let np = unsafe { a.realloc(p as *mut u8, q.size, q.align, q.shrink_to) } as usize;
+                        stats.reallocs += 1;
+                        if np != 0 {
+                            // peak demand is taken before the shrink: both sizes never count at once
+                            peak_live = peak_live.max(live);
+                            live = live - q.size + q.shrink_to;
+                            p = np;
+                            unsafe { *(p as *mut u8) = 1 };
+                        }
+                    }
                     ptrs[i] = p;
                     if churn && i % 3 == 2 && ptrs[i - 1] != 0 {
                         // steady-state churn: give one back early and take it again later
@@ -984,11 +1016,19 @@ fn run_footprint_single(dec: Dec, opts: &RunOpts, rounds: usize, big_holes: bool
     if std::env::var_os("VERIF_C04_DEMO").is_some() {
         eprintln!("exhausted {} windows {windows:?} m_end {m_end} peak_live {peak_live} mmaps {} unmaps {} above {} below {} isolated {}", with_prov(|p| p.n_exhausted), with_prov(|p| p.n_mmap), with_prov(|p| p.n_munmap), with_prov(|p| p.n_above), with_prov(|p| p.n_below), with_prov(|p| p.n_isolated));
     }
-    let gv = growth_violation(&windows, m_end, peak_live, rounds, with_prov(|p| p.n_exhausted) > 0);
+    let mut gv = growth_violation(&windows, m_end, peak_live, rounds, with_prov(|p| p.n_exhausted) > 0);
+    let peak_mapped = windows.iter().copied().max().unwrap_or(0);
+    if shrink_family && gv.is_none() && peak_mapped > 3 * peak_live + (8 << 20) {
+        gv = Some(Violation {
+            sig: "footprint|shrunk-space-not-reused".into(),
+            detail: format!("{} blocks of about {} bytes (align {}) were each reallocated down to {} bytes before the next one was requested: {peak_mapped} bytes mapped at the peak, peak live bytes {peak_live}", round.reqs.len(), round.reqs[0].size, round.reqs[0].align, round.reqs[0].shrink_to),
+        });
+    }
     let sample = json!({"variant": "single-threaded rounds", "rounds": rounds, "requests_per_round": round.reqs.len(), "first_requests": round.reqs.iter().take(12).map(|q| json!([q.size, q.align])).collect::<Vec<_>>(), "churn": churn, "window_maxima_of_mapped_bytes": windows, "mapped_at_end": m_end, "peak_live_bytes": peak_live});
     let mut out = finish(&mut sim, &k, &stats, false, opts, sample, panic_v.or(gv));
     out.nontrivial = round.reqs.len() >= 3 && out.counters.get("probe.munmap_calls").copied().unwrap_or(0) + out.counters.get("probe.trim_by_mremap_shrink").copied().unwrap_or(0) >= 1;
     out.counters.insert("rounds", rounds as u64);
+    out.counters.insert("probe.runs_with_shrunk_blocks", u64::from(shrink_family));
     out.counters.insert("probe.runs_with_realloc_growth", u64::from(round.reqs.iter().any(|q| q.grow && q.size >= 16)));
     out
 }
